@@ -16,14 +16,12 @@ package s3event
 
 import (
 	"encoding/json"
-	"encoding/xml"
 	"fmt"
 	"os"
 	"sync"
 
 	"github.com/gofiber/fiber/v2"
 	"github.com/nats-io/nats.go"
-	"github.com/versity/versitygw/s3response"
 )
 
 type NatsEventSender struct {
@@ -69,15 +67,13 @@ func (ns *NatsEventSender) SendEvent(ctx *fiber.Ctx, meta EventMeta) {
 	}
 
 	if meta.EventName == EventObjectRemovedDeleteObjects {
-		var dObj s3response.DeleteObjects
-
-		if err := xml.Unmarshal(ctx.Body(), &dObj); err != nil {
-			fmt.Fprintf(os.Stderr, "failed to parse delete objects input payload: %v\n", err.Error())
-			return
-		}
-
+		// only the objects that were deleted, not every key of the request:
+		// a key refused or failed individually has no event
 		// Events aren't send in correct order
-		for _, obj := range dObj.Objects {
+		for _, obj := range meta.DeletedObjects {
+			if obj.Key == nil {
+				continue
+			}
 			key := *obj.Key
 			schema := createEventSchema(ctx, meta, ConfigurationIdWebhook)
 			schema.Records[0].S3.Object.Key = key
